@@ -229,7 +229,7 @@ class Run:
         # generator health: required class fractions
         for cls, frac in self.min_class_fraction.items():
             have = st.classes.get(cls, 0) / max(1, st.evaluations)
-            if have < frac:
+            if have < frac and not self.violations:     # failures cut the search short and skew the mix
                 raise HarnessError(f"generator health: class {cls!r} fraction {have:.4f} < {frac}")
         if len(st.nontrivial) < 2:
             raise HarnessError("fewer than 2 distinct non-trivial cases")
